@@ -395,7 +395,7 @@ fn probe_every_interleaving_of_three_files() {
     use sha2::{Digest, Sha256};
     // scripts: (file, op)  op: 0 = start, 1.. = append piece #op-1, 255 = end
     let pieces: [&[&[u8]]; 3] = [&[b"abc", b"", b"defgh"], &[b"WXYZ"], &[]];
-    let names = ["file_a", "file_b", "file_c"];
+    let names = ["file_a", "dir\\win_b", "file_c"]; // (a backslash is an ordinary character of a name)
     let lens: Vec<usize> = pieces.iter().map(|p| p.len() + 2).collect();
     fn rec(progress: &mut Vec<usize>, lens: &[usize], cur: &mut Vec<usize>, out: &mut Vec<Vec<usize>>) {
         if (0..lens.len()).all(|f| progress[f] == lens[f]) { out.push(cur.clone()); return; }
@@ -435,7 +435,9 @@ fn probe_every_interleaving_of_three_files() {
         let mut r = ArchiveReader::new(Cursor::new(bytes.clone())).unwrap_or_else(|e| panic!("{script}: archive does not open: {e:?}"));
         let mut listed: Vec<String> = r.list_files().unwrap().cloned().collect();
         listed.sort();
-        assert_eq!(listed, names.iter().map(|s| s.to_string()).collect::<Vec<_>>(), "{script}: wrong listing");
+        let mut want_listed: Vec<String> = names.iter().map(|s| s.to_string()).collect();
+        want_listed.sort();
+        assert_eq!(listed, want_listed, "{script}: wrong listing");
         for f in 0..3 {
             let want: Vec<u8> = pieces[f].concat();
             let mut file = r.get_file(names[f].to_string()).unwrap_or_else(|e| panic!("{script}: get_file({}) fails: {e:?}", names[f])).expect("listed file exists");
@@ -652,6 +654,43 @@ fn probe_reopening_files_gives_the_same_result_every_time() {
             drop(f);
             let h = r.get_hash(names[(i + 1) % names.len()]).unwrap().unwrap();
             assert!(h == reference[(i + 1) % names.len()].2, "{what}: hash asked afterwards differs from a fresh reader's");
+        }
+    }
+}
+
+/// sink that fails (or stops accepting) on its k-th write
+struct FailingSink { got: Vec<u8>, calls: usize, fail_at: usize, zero: bool }
+impl Write for FailingSink {
+    fn write(&mut self, b: &[u8]) -> std::io::Result<usize> {
+        self.calls += 1;
+        if self.calls >= self.fail_at {
+            return if self.zero { Ok(0) } else { Err(std::io::Error::new(std::io::ErrorKind::Other, "disk full")) };
+        }
+        let n = b.len().min(1000);
+        self.got.extend_from_slice(&b[..n]);
+        Ok(n)
+    }
+    fn flush(&mut self) -> std::io::Result<()> { Ok(()) }
+}
+/// C12/C20: linear extraction reports the failure of a per-file writer (an error, or a writer that accepts nothing more): it never
+/// returns Ok after having dropped part of a requested file. BOUND: failure at the 1st, 2nd, 3rd, 10th write; error or Ok(0); 4 layer sets.
+#[test]
+fn probe_linear_extract_reports_a_failing_writer() {
+    for layers in [Layers::EMPTY, Layers::COMPRESS, Layers::ENCRYPT, Layers::COMPRESS | Layers::ENCRYPT] {
+        let bytes = pwrite_to(Vec::new(), layers);
+        for fail_at in [1usize, 2, 3, 10] {
+            for zero in [false, true] {
+                let mut rc = ArchiveReaderConfig::new();
+                if layers.contains(Layers::ENCRYPT) { rc.add_private_keys(&[pkeys().0]); }
+                let mut r = ArchiveReader::from_config(Cursor::new(bytes.clone()), rc).unwrap();
+                let names: Vec<String> = vec!["noise".to_string(), "text".to_string()];
+                let mut sinks: std::collections::HashMap<&String, FailingSink> = std::collections::HashMap::new();
+                sinks.insert(&names[0], FailingSink { got: Vec::new(), calls: 0, fail_at, zero });
+                sinks.insert(&names[1], FailingSink { got: Vec::new(), calls: 0, fail_at: usize::MAX, zero: false });
+                let res = crate::helpers::linear_extract(&mut r, &mut sinks);
+                let got = sinks[&names[0]].got.len();
+                assert!(res.is_err(), "layers {layers:?}: the writer of `noise` {} on its write #{fail_at}, it received {got} of 300000 bytes, and linear_extract returned Ok", if zero { "accepts nothing more" } else { "fails" });
+            }
         }
     }
 }
